@@ -534,3 +534,177 @@ func ctxCorpus(w *lib.Writer) {
 		runCtx(w, CtxIn{Kind: "ctx", Ops: ops}, "corpus/ctx")
 	}
 }
+
+/* ---------- (d) one hand-over through the Go API against the model ---------- */
+
+// HoIn: a state made with the given registry options holds T values at its base level and resumes
+// (LState.Resume) a coroutine that yields / returns K values or raises an error.
+type HoIn struct {
+	Kind string `json:"kind"` // "handover"
+	Reg  int    `json:"reg"`
+	Max  int    `json:"max"`
+	Grow int    `json:"grow"`
+	Min  bool   `json:"min"`
+	T    int    `json:"t"`
+	K    int    `json:"k"`
+	Mode int    `json:"mode"` // 0 yield, 1 return, 2 error
+}
+
+const hoBody = `local k, mode = ...
+local vals = {} for i = 1, k do vals[i] = i end
+if mode == 2 then error("boom", 0) end
+if mode == 1 then return unpack(vals) end
+local v = coroutine.yield(unpack(vals))
+return "done", v`
+
+func runHandover(w *lib.Writer, in HoIn, class string) {
+	L := lua.NewState(lua.Options{RegistrySize: in.Reg, RegistryMaxSize: in.Max, RegistryGrowStep: in.Grow, MinimizeStackMemory: in.Min})
+	defer L.Close()
+	o := L.Options
+	fail := ""
+	note := func(f string, a ...any) {
+		if fail == "" {
+			fail = fmt.Sprintf(f, a...)
+			if len(fail) > 200 {
+				fail = fail[:200]
+			}
+		}
+	}
+	guard := func(f func()) (msg string, panicked bool) {
+		defer func() {
+			if r := recover(); r != nil {
+				panicked = true
+				msg = fmt.Sprint(r)
+				if e, ok := r.(error); ok {
+					msg = e.Error()
+				}
+			}
+		}()
+		f()
+		return
+	}
+	fn, err := L.LoadString(hoBody)
+	if err != nil {
+		panic(err)
+	}
+	th, _ := L.NewThread()
+	L.SetTop(0)
+	if lua.VerifRegTop(L) != 0 {
+		note("registry top of a fresh state is %d", lua.VerifRegTop(L))
+	}
+	if msg, p := guard(func() {
+		for i := 1; i <= in.T; i++ {
+			L.Push(lua.LNumber(i))
+		}
+	}); p {
+		note("pushing %d values: %s", in.T, msg)
+	}
+	st, nvals, valsok := 0, 0, true
+	var rs lua.ResumeState
+	var rerr error
+	var vals []lua.LValue
+	msg, p := guard(func() { rs, rerr, vals = L.Resume(th, fn, lua.LNumber(in.K), lua.LNumber(in.Mode)) })
+	switch {
+	case p && strings.Contains(msg, "registry overflow"):
+		st = 1
+	case p:
+		st = 2
+		note("Resume panicked: %s", msg)
+	case in.Mode == 2:
+		nvals = 1
+		ae, ok := rerr.(*lua.ApiError)
+		valsok = rs == lua.ResumeError && ok && ae.Object == lua.LString("boom")
+	default:
+		nvals = len(vals)
+		valsok = rerr == nil && ((in.Mode == 0 && rs == lua.ResumeYield) || (in.Mode == 1 && rs == lua.ResumeOK))
+		for i, v := range vals {
+			if v != lua.LNumber(i+1) {
+				valsok = false
+			}
+		}
+	}
+	// afterwards: the resumer is the running thread, its values are intact, the coroutine is what it is after a completed hand-over
+	childok := L.Status(L) == "running"
+	if _, p := guard(func() { L.SetTop(in.T) }); p {
+		childok = false
+	}
+	for _, i := range []int{1, in.T / 2, in.T} {
+		if i >= 1 && i <= in.T && L.Get(i) != lua.LNumber(i) {
+			childok = false
+		}
+	}
+	guard(func() { L.SetTop(0) })
+	if in.Mode == 0 {
+		if L.Status(th) != "suspended" {
+			childok = false
+		}
+		var rs2 lua.ResumeState
+		var vals2 []lua.LValue
+		if _, p := guard(func() { rs2, _, vals2 = L.Resume(th, fn, lua.LString("go")) }); p || rs2 != lua.ResumeOK || len(vals2) != 2 ||
+			vals2[0] != lua.LString("done") || vals2[1] != lua.LString("go") {
+			childok = false
+		}
+	}
+	if L.Status(th) != "dead" || L.Status(L) != "running" {
+		childok = false
+	}
+	var rs3 lua.ResumeState
+	if _, p := guard(func() { rs3, _, _ = L.Resume(th, fn) }); p || rs3 != lua.ResumeError {
+		childok = false
+	}
+	lim := o.RegistrySize
+	if o.RegistryMaxSize > lim {
+		lim = o.RegistryMaxSize
+	}
+	need := in.T + in.K + 1
+	z := func(i int) string { return lib.CoqZ(int64(i)) }
+	id := w.Add(lib.Case{Input: in, Observed: map[string]any{"st": st, "nvals": nvals, "valsok": valsok, "childok": childok, "msg": truncate(msg, 120)},
+		Class: class, Nontrivial: need >= lim-1 && need <= lim+2,
+		Coq: fmt.Sprintf("CHandover %s %s %s %s %s %d %d %d %s %s", z(o.RegistrySize), z(o.RegistryGrowStep), z(o.RegistryMaxSize), z(in.T), z(in.K), in.Mode, st, nvals,
+			lib.CoqBool(valsok), lib.CoqBool(childok))})
+	if fail != "" {
+		w.GoFail(id, "hand-over through the Go API: "+fail)
+	}
+}
+
+func truncate(s string, n int) string {
+	if len(s) > n {
+		return s[:n]
+	}
+	return s
+}
+
+func genHandover(r *lib.Rand) HoIn {
+	pick := func(vs ...int) int { return vs[r.Intn(len(vs))] }
+	in := HoIn{Kind: "handover", Reg: pick(128, 129, 150, 200), Grow: pick(0, 1, 2, 7, 32, 100), Min: r.Bool(), Mode: r.Pick(3, 2, 2)}
+	switch r.Pick(3, 2, 2, 2) {
+	case 0:
+		in.Max = 0
+	case 1:
+		in.Max = in.Reg + pick(0, 1, 2, 31, 32, 33)
+	case 2:
+		in.Max = pick(256, 300)
+	default:
+		in.Max = in.Reg - 1 // below the initial size: fixed
+	}
+	in.K = pick(0, 1, 2, 3, 5, 20, 60)
+	if in.Mode == 2 {
+		in.K = 1
+	}
+	lim := in.Reg
+	if in.Max > lim {
+		lim = in.Max
+	}
+	// the boundary is T + K + 1 == lim
+	in.T = lim - in.K - 1 + r.Range(-2, 3)
+	if r.Chance(15) {
+		in.T = r.Intn(lim + 1)
+	}
+	if in.T < 0 {
+		in.T = 0
+	}
+	if in.T > lim {
+		in.T = lim
+	}
+	return in
+}
